@@ -2833,10 +2833,17 @@ func calculateReconnectDelay(attempt int) time.Duration {
 	if attempt == 0 {
 		return 0
 	}
-	// Calculate the exponential backoff using the grow factor.
-	backoffDuration := time.Duration(float64(reconnectInitialDelay.Load()) * math.Pow(reconnectGrowFactor, float64(attempt-1)))
-	// Cap the backoffDuration at maxDelay.
-	backoffDuration = min(backoffDuration, reconnectMaxDelay)
+	// Calculate the exponential backoff using the grow factor, capped at
+	// maxDelay. The cap is applied before converting to a Duration: for large
+	// attempt numbers the product exceeds what a Duration can hold, and the
+	// conversion of such a float is not a large Duration but a negative one.
+	backoffDuration := reconnectMaxDelay
+	if backoff := float64(reconnectInitialDelay.Load()) * math.Pow(reconnectGrowFactor, float64(attempt-1)); backoff < float64(reconnectMaxDelay) {
+		backoffDuration = time.Duration(backoff)
+	}
+	if backoffDuration <= 0 {
+		return 0 // rand.N requires a positive bound
+	}
 
 	// Use a full jitter using backoffDuration
 	jitter := rand.N(backoffDuration)
